@@ -18,7 +18,7 @@ receives payload was reported Dirty by the cell buffer when the Show began (and 
 is not the hidden half of a wide rune).  By C08 (`dirty_sound` and the explicit dirtying rules) a cell is Dirty
 only if its rune, combining runes or style differ from what they were when it was last painted, or it lies in
 the columns covered or uncovered by a changed wide rune, or it was invalidated / unlocked. -/
-theorem show_writes_only_dirty_partial (hrw : RwOk c.rw) (hct : c.cornerTrick = false) (w h : Int) (ops : List ScrOp)
+theorem show_writes_only_dirty_partial (hrw : RwOk c.rw) (hct : c.Plain) (w h : Int) (ops : List ScrOp)
     (hv : ∀ op ∈ ops, op.Valid c) :
     let wd := (World.init w h).run c ops
     wd.trusted = true → (wd.sw.ttyw = wd.sw.s.w ∧ wd.sw.ttyh = wd.sw.s.h) →
@@ -27,7 +27,7 @@ theorem show_writes_only_dirty_partial (hrw : RwOk c.rw) (hct : c.cornerTrick = 
   fun ht hsz => show_writes hrw hct (reach_inv hrw hct w h ops hv) ht hsz
 
 /-- **Locked cells are never addressed.** No payload is sent to a cell that is locked when the Show begins. -/
-theorem locked_never_addressed_partial (hrw : RwOk c.rw) (hct : c.cornerTrick = false) (w h : Int) (ops : List ScrOp)
+theorem locked_never_addressed_partial (hrw : RwOk c.rw) (hct : c.Plain) (w h : Int) (ops : List ScrOp)
     (hv : ∀ op ∈ ops, op.Valid c) :
     let wd := (World.init w h).run c ops
     wd.trusted = true → (wd.sw.ttyw = wd.sw.s.w ∧ wd.sw.ttyh = wd.sw.s.h) →
@@ -45,7 +45,7 @@ theorem locked_never_addressed_partial (hrw : RwOk c.rw) (hct : c.cornerTrick = 
 
 /-- **An idle Show writes nothing.** A Show immediately following a Show (no content change, no resize, no
 corruption in between) sends no cell payload at all. -/
-theorem idle_show_writes_nothing_partial (hrw : RwOk c.rw) (hct : c.cornerTrick = false) (w h : Int) (ops : List ScrOp)
+theorem idle_show_writes_nothing_partial (hrw : RwOk c.rw) (hct : c.Plain) (w h : Int) (ops : List ScrOp)
     (hv : ∀ op ∈ ops, op.Valid c) :
     let wd := (World.init w h).run c ops
     (wd.trusted = true ∨ ¬ (wd.sw.ttyw = wd.sw.s.w ∧ wd.sw.ttyh = wd.sw.s.h)) →
@@ -85,7 +85,7 @@ theorem idle_show_writes_nothing_partial (hrw : RwOk c.rw) (hct : c.cornerTrick 
 
 /-- **A cell is repainted by the first Show after it is unlocked** (and more generally after anything made it
 dirty): this is C01's `show_faithful_partial` — after that Show the cell is clean and displays its content. -/
-theorem unlock_repaints_partial (hrw : RwOk c.rw) (hct : c.cornerTrick = false) (w h : Int) (ops : List ScrOp)
+theorem unlock_repaints_partial (hrw : RwOk c.rw) (hct : c.Plain) (w h : Int) (ops : List ScrOp)
     (hv : ∀ op ∈ ops, op.Valid c) (x y rw' rh : Int) :
     let wd := ((World.init w h).run c ops).step c (.lockRegion x y rw' rh false)
     wd.trusted = true → Displays c (wd.step c .show) := by
